@@ -287,6 +287,68 @@ func checkC11(p *load.Program, r *kit.Report) {
 				}
 			}
 		}
+		// a stored branch is dropped while loading only when its tip is below the retained depth
+		// (the same condition prune() uses): everything else the index names is kept
+		{
+			badK := ""
+			lbs := kit.CallsTo(f, H+".LoadBranch")
+			if len(lbs) != 1 {
+				badK = "expected one LoadBranch call in load"
+			} else {
+				lb := lbs[0].(*ssa.Call)
+				br := extractOf(lb, 0)
+				var keep ssa.Instruction
+				kit.AllInstrs(f, func(in ssa.Instruction) {
+					c, ok := in.(*ssa.Call)
+					if !ok || kit.CallID(c) != "builtin.append" || len(cycleOf(c.Block())) == 0 {
+						return
+					}
+					if sl, ok := c.Call.Args[1].(*ssa.Slice); ok {
+						if al, ok := sl.X.(*ssa.Alloc); ok {
+							for _, ref := range *al.Referrers() {
+								if ia, ok := ref.(*ssa.IndexAddr); ok {
+									for _, r2 := range *ia.Referrers() {
+										if st, ok := r2.(*ssa.Store); ok && kit.Strip(st.Val) == br {
+											keep = c
+										}
+									}
+								}
+							}
+						}
+					}
+				})
+				below := kit.FindGuards(f, func(c ssa.Value) (bool, bool) {
+					b, ok := c.(*ssa.BinOp)
+					if !ok {
+						return false, false
+					}
+					isTip := func(v ssa.Value) bool {
+						hc := isCallTo(v, H+".Branch.Height")
+						return hc != nil && kit.Strip(recvPtr(hc.Call.Args[0])) == br
+					}
+					switch {
+					case b.Op == token.LSS && isTip(b.X), b.Op == token.GTR && isTip(b.Y):
+						return true, true
+					case b.Op == token.GEQ && isTip(b.X), b.Op == token.LEQ && isTip(b.Y):
+						return true, false
+					}
+					return false, false
+				})
+				if keep == nil {
+					badK = "loaded branches are not collected"
+				} else if header, _ := loopBodyEntry(f, keep); header != nil {
+					var starts []kit.Pt
+					for _, e := range edgesOf(errNilGuards(f, lb), true) {
+						starts = append(starts, kit.EdgeStart(e))
+					}
+					rr := kit.Reach(f, starts, kit.Opts{StopAt: kit.InstrSet(keep), BlockEdge: kit.EdgeSet(edgesOf(below, true)...)})
+					if rr.Has(header.Instrs[0]) {
+						badK = "a stored branch can be dropped while loading although its tip is not below the retained depth (" + rr.PathTo(header.Instrs[0], p.Pos) + "): its headers become unknown and a submission that extends it is refused"
+					}
+				}
+			}
+			r.Check(badK == "", "COVER-ALL", "load/keeps-branches-within-depth", posOf(p, f.Blocks[0].Instrs[0]), "a loaded branch is skipped only behind branch.Height() < pruneHeight", badK)
+		}
 		r.Check(badT == "", "ORDER", "load/tip-before-sort", posOf(p, f.Blocks[0].Instrs[0]), "Longest() runs on the list in stored order, before sort.Sort", badT)
 	}
 }
@@ -487,6 +549,8 @@ func checkBranchSave(p *load.Program, r *kit.Report) {
 }
 
 func checkC12(p *load.Program, r *kit.Report) {
+	importRules(p, r, "C11", "a crash image is loadable only if every file that was completely written has the layout Load expects, and Save writes the main files before the branch files and index that depend on them", 3,
+		func(o *kit.Obligation) bool { return o.Rule == "MAIN-FILE-SHAPE" || strings.HasPrefix(o.Construct, "Save/order") }, "MAIN-FILE-SHAPE", "MERGE-SHAPE")
 	importRules(p, r, "C01", "after Load the reported tip must be the heaviest of the branches that could be read", 1,
 		func(o *kit.Obligation) bool {
 			return strings.Contains(o.Construct, "Repository.load") || strings.Contains(o.Construct, "Repository.migrate")
